@@ -96,11 +96,13 @@ def profiles_for(pid, tier):
         "C03": [("general", dict(three, w_claim=16, w_release=8, w_close=8, w_restart=2, w_sweep=3, names=["1", "2", "7"]), N(200, 2000))],
         "C04": [("general", dict(three, w_allocate=14, w_claim=8, w_release=8, names=["1", "2", "3", "03", "٣", "12", "x"],
                                  w_sweep=2), N(160, 1500)),
-                ("fill", dict(_special="fill"), N(6, 40))],
+                ("fill", dict(_special="fill"), N(24, 120))],
         "C05": [("third", dict(base, apps=["a"], sides=["s1", "s2", "s3", "s4"], names=["1", "2"], client_mailboxes=["m1"],
                                w_claim=12, w_open=12, w_close=8, w_release=6, w_add=10, w_reconnect=10, w_restart=1), N(220, 2000))],
         "C06": [("two-apps", dict(base, apps=["a", "b"], sides=["s1", "s2"], names=["1", "2"], client_mailboxes=["m1"], w_sweep=3,
-                                  w_restart=1), N(120, 1000))],
+                                  w_restart=1), N(120, 1000)),
+                ("odd-strings", dict(base, apps=["a", "b", ""], sides=["s1", "", "s1 "], names=["1", ""], client_mailboxes=["m1", ""],
+                                     w_malformed=8, w_add=12, w_open=10), N(80, 600))],
         "C07": [("general", dict(three, w_claim=14, w_release=12, w_close=8, w_list=8, names=["1", "2", "7"], w_reconnect=8), N(200, 2000))],
         "C08": [("general", dict(three, w_close=14, w_open=12, w_claim=10, w_release=6, w_reconnect=8, names=["1", "2"],
                                  sides=["s1", "s2"]), N(200, 2000)),
@@ -120,6 +122,8 @@ def profiles_for(pid, tier):
         "C15": [("usage", dict(three, usage=True, w_close=12, w_release=10, w_sweep=5, w_bigjump=3), N(200, 2000))],
         "C16": [("blur", dict(three, usage=True, blur="rand", w_close=12, w_release=10, w_sweep=5, w_bigjump=3), N(200, 2000))],
         "C17": [("malformed", dict(three, w_malformed=14), N(200, 2000)),
+                ("odd-strings", dict(base, apps=["a", "", "ü"], sides=["s1", "", "s\u0000x"], names=["1", "", "ñ"],
+                                     client_mailboxes=["m1", ""], w_malformed=8), N(80, 600)),
                 ("general", dict(three, w_malformed=4, welcome=True), N(80, 600))],
         "C18": [("configs", dict(three, w_list=8, w_allocate=8), N(100, 800))],
     }
@@ -132,8 +136,8 @@ def special_history(pid, profile, seed):
     r = random.Random(seed)
     if kind == "fill":
         # fill 1..9 / 1..99 / 1..999 through the API, with holes, then allocate
-        upto = r.choice([9, 9, 99, 99, 999])
-        holes = set(r.sample(range(1, upto + 1), r.choice([0, 1, 2])))
+        upto = r.choice([9, 9, 9, 9, 99, 99, 99, 999])
+        holes = set(r.sample(range(1, upto + 1), r.choice([0, 1, 1, 2, 3])))
         t = 8000
         h = [{"op": "cfg", "rebooted": t, "usage": False, "allow_list": r.random() < 0.5, "blur": None}]
         c = 0
@@ -144,6 +148,13 @@ def special_history(pid, profile, seed):
             h.append({"op": "connect", "c": c})
             h.append({"op": "recv", "c": c, "t": t, "msg": {"type": "bind", "appid": "a", "side": "s%d" % (k % 3)}})
             h.append({"op": "recv", "c": c, "t": t, "msg": {"type": "claim", "nameplate": str(k)}, "fresh": "f%d" % k})
+            h.append({"op": "drop", "c": c})
+        junk = r.sample(["x", "0", "07", "٣", "00", "1x", "012", "abc", " 1"], r.choice([0, 1, 2, 3]))
+        for name in junk:
+            c += 1
+            h.append({"op": "connect", "c": c})
+            h.append({"op": "recv", "c": c, "t": t, "msg": {"type": "bind", "appid": "a", "side": "j"}})
+            h.append({"op": "recv", "c": c, "t": t, "msg": {"type": "claim", "nameplate": name}, "fresh": "j%d" % c})
             h.append({"op": "drop", "c": c})
         for o in h[1:]:
             o["_nodump"] = True
@@ -240,10 +251,7 @@ def engine_for(pid):
 
 
 # ----------------------------------------------------------------------------------- manifest texts
-NOT_APPLICABLE = {
-    "C19": "engine for database files (Lean step model + real-kill fault enumeration) is being built; not registered yet",
-    "C20": "engine for database files (Lean step model + real-kill fault enumeration) is being built; not registered yet",
-}
+NOT_APPLICABLE = {}
 
 _T = "Lean 4 proof over a hand-written executable model + differential correspondence model<->code + property oracle on implementation traces"
 NOTES = {pid: {"technique": _T, "text": "", "note": ""} for pid in PROPS}
